@@ -443,6 +443,7 @@ def setup(eng):
     eng.funcs["finish_task"] = FuncVal("finish_task", "contract", finish_task)
     eng.mutable_records.add("State")
     eng.always_truthy.update({"Fn", "Future", "Queue", "KeyOrder"})  # callables and plain objects are truthy
+    eng.nullable_sorts.add("Val")  # task results and literal data are arbitrary Python objects, None included
     eng.spec_types["Key"] = Key
     eng.funcs.update(LEMMA_FUNCS)
     eng.uninterp_divmod = True
